@@ -4,19 +4,23 @@ reference); this driver only fixes the domain and collects the violations."""
 import json, os, sys
 
 THOROUGH = os.environ.get("VERIF_NATIVE_SIZE", "quick") == "thorough"
-# (prefix, suffix, alphabet, maximal number of alphabet characters)
+# (prefix, suffix, alphabet: a string of single characters or a list of tokens, maximal number of alphabet items)
 DOMAINS = [
     ("", "", "a1 \n\t#\\'\"([:.=-<!e_é\r}0x", 5 if THOROUGH else 4),
     # f-strings (their own scanner and error positions): f"<body>"
     ('f"', '"', "{}éa!:'\\=x ", 6 if THOROUGH else 5),
     ("rf\'\'\'", "\'\'\'", "{}é\n\\'a", 5 if THOROUGH else 4),
+    # token level: soft keywords (their look-ahead counts brackets on its own), brackets, assignment
+    ("", "\n", ["type ", "match ", "case ", "x", "_", "[", "]", "(", ")", "{", "=", ":", "\n", "    "], 6 if THOROUGH else 5),
+    ("type X", " = int\n", ["[", "]", "(", ")", "{", "}", "T", ","], 7 if THOROUGH else 6),
 ]
 
 
 def prepare(d):
     with open(os.path.join(d, "domains.txt"), "w") as f:
         for p, s, a, n in DOMAINS:
-            f.write("%s\t%s\t%s\t%d\n" % (p.encode().hex(), s.encode().hex(), a.encode().hex(), n))
+            items = list(a)
+            f.write("%s\t%s\t%s\t%d\n" % (p.encode().hex(), s.encode().hex(), "\x1f".join(items).encode().hex(), n))
 
 
 def judge(d):
